@@ -171,11 +171,19 @@ def sub_routes(R):
 
     def child_ignore():
         return child() + [R.Rule('Comment', R.Regex('#.*'), ignored=True)]
+    def child_start():
+        # a start rule of its own, no ignore declaration of its own
+        return child() + [R.Rule('start', R.Choice(R.Ref('N'), R.Str('q')))]
+
+    def child_class_start():
+        return [R.Class('Start', [R.Rule('a', R.Str('x')), R.Rule('b', R.Ref('X'))])] + child()
     out = []
     for anon in (False, True):
         tag = 'anon' if anon else 'named'
         out.append((f'sub-{tag}-ignore', parent_nodes(anon), parent_exprs(anon), child))
         out.append((f'sub-{tag}-ignore+own', parent_nodes(anon), parent_exprs(anon), child_ignore))
+    out.append(('sub-named-ignore+start', parent_nodes(False), parent_exprs(False), child_start))
+    out.append(('sub-named-ignore+class-start', parent_nodes(False), parent_exprs(False), child_class_start))
 
     # the base's start rule is a class; the sub-grammar defines no start of its own
     def cs_nodes():
@@ -716,6 +724,18 @@ def context_wiring(mod, bad, stats):
                     reads.setdefault(n.attr, fname)
                 elif n.value.id == '_super_ctx':
                     sreads.setdefault(n.attr, fname)
+    # the context is dynamic: rule functions and their helper functions receive it as a parameter;
+    # one that reads the module global `_ctx` instead is bound to the grammar that defined it, so
+    # through a sub-grammar it calls the base definitions (overrides and the sub-grammar's ignore
+    # rule are bypassed)
+    for n in mod.tree.body:
+        if isinstance(n, ast.FunctionDef) and n.name.startswith(('_try_', '_parse_function_')):
+            stats['ctx_param_functions'] = stats.get('ctx_param_functions', 0) + 1
+            params = {a.arg for a in n.args.posonlyargs + n.args.args + n.args.kwonlyargs}
+            if '_ctx' not in params and any(isinstance(x, ast.Name) and x.id == '_ctx' for x in ast.walk(n)):
+                bad('WIRE-ctx-param', f'{mod.label}: {n.name}({", ".join(sorted(params))}) reads the module global '
+                                      f'_ctx instead of receiving the context: when the code runs through a '
+                                      f'sub-grammar it calls the base grammar\'s rules, not the overrides')
     # `super.R` is lexical: it must be rooted at the module-global _super_ctx, never at the
     # dynamic context (which is the most derived grammar's)
     for fname, fn in load.functions_of(mod.tree).items():
